@@ -392,6 +392,52 @@ class _OpenHooks:
         return fobj
 
 
+class _MemCap:
+    """While active, the address space of this process may grow by at most 4 GB (RLIMIT_AS, soft limit, restored on exit).
+    A file that is not a complete pickle can still be a *program* for the unpickler: a memo index of 2**32 makes the C
+    unpickler allocate and clear tens of gigabytes (seen with a file that is half a new serialization and half an older
+    one: the harness process grew to 31 GB and was killed by the kernel).  With the cap the allocation fails with
+    MemoryError, which is how a machine with less memory would see it; what valjean does with that exception is judged
+    like any other reaction to a damaged file.  Re-entrant; TLC is started through `sh -c 'ulimit -v unlimited'`
+    (tlc.py) and is not affected."""
+    _lock = threading.RLock()
+    _depth = 0
+    _old = None
+
+    def __enter__(self):
+        import resource
+        cls = _MemCap
+        with cls._lock:
+            if cls._depth == 0:
+                try:
+                    with open('/proc/self/statm', encoding='ascii') as f:
+                        vm = int(f.read().split()[0]) * resource.getpagesize()
+                    cls._old = resource.getrlimit(resource.RLIMIT_AS)
+                    cap = vm + (4 << 30)
+                    if cls._old[0] == resource.RLIM_INFINITY or cap < cls._old[0]:
+                        hard = cls._old[1]
+                        resource.setrlimit(resource.RLIMIT_AS, (cap if hard == resource.RLIM_INFINITY else min(cap, hard), hard))
+                    else:
+                        cls._old = None
+                except (OSError, ValueError):
+                    cls._old = None
+            cls._depth += 1
+        return self
+
+    def __exit__(self, *exc):
+        import resource
+        cls = _MemCap
+        with cls._lock:
+            cls._depth -= 1
+            if cls._depth == 0 and cls._old is not None:
+                try:
+                    resource.setrlimit(resource.RLIMIT_AS, cls._old)
+                except (OSError, ValueError):
+                    pass
+                cls._old = None
+        return False
+
+
 class _Unreadable:
     """While active (only while code of valjean runs: a read, a write, a session), every attempt to look at or to open
     the environment file of a chosen task BY ITS PATH fails the way the operating system makes it fail when the file
@@ -436,6 +482,7 @@ class _Unreadable:
         return wrapper
 
     def __enter__(self):
+        self._cap = _MemCap().__enter__()
         if self.paths:
             import builtins
             import io
@@ -453,6 +500,7 @@ class _Unreadable:
             import io
             builtins.open, io.open, os.open, os.stat, os.lstat, os.access = self.saved
             self.saved = None
+        self._cap.__exit__(None, None, None)
         return False
 
 
@@ -662,7 +710,8 @@ class World:
             return list(PARTIAL)
         # complete = the file holds exactly {name: entry} for an entry that was created for t, however it is serialized
         try:
-            obj = pickle.loads(data)
+            with _MemCap():
+                obj = pickle.loads(data)
             if list(obj.keys()) == [self.name(t)]:
                 status, ver = self._identify(t, obj[self.name(t)])
                 if ver > 0:
